@@ -1,4 +1,5 @@
 import Pyunicorn.Lemmas.Random
+import Pyunicorn.Lemmas.RandomB
 /-!
 # C17 — random models and rewirings keep their documented invariants
 
@@ -189,5 +190,169 @@ theorem geoStep_degree_pairs (c : GeoCfg) (st st' : GeoSt) (d : Nat × Nat)
     simp only [geoAccept, Bool.and_eq_true, condDeg, hm, beq_iff_eq] at acc
     obtain ⟨⟨-, h1, h2⟩, -⟩ := acc
     simp [hpq, h1, h2]
+
+/-! ## cross links: `overwriteAdjacency`
+
+`nodes1`, `nodes2` are the two node lists (no duplicates, disjoint — a partition
+of part of the node set). -/
+
+
+
+theorem overwrite_untouched (A C : Adj) (nodes1 nodes2 : List Nat) (a b : Nat)
+    (h1 : ¬ (a ∈ nodes1 ∧ b ∈ nodes2)) (h2 : ¬ (a ∈ nodes2 ∧ b ∈ nodes1)) :
+    overwrite A C nodes1 nodes2 a b = A a b := by
+  apply applyWrites_untouched
+  intro w hw hc
+  rw [mem_overwriteWrites] at hw
+  obtain ⟨i, j, n1, n2, e1, e2, hw⟩ := hw
+  have m1 : n1 ∈ nodes1 := List.mem_of_getElem? e1
+  have m2 : n2 ∈ nodes2 := List.mem_of_getElem? e2
+  rcases hw with rfl | rfl
+  · exact h1 ⟨hc.1 ▸ m1, hc.2 ▸ m2⟩
+  · exact h2 ⟨hc.1 ▸ m2, hc.2 ▸ m1⟩
+
+theorem overwrite_block (A C : Adj) (nodes1 nodes2 : List Nat)
+    (nd1 : NodupIdx nodes1) (nd2 : NodupIdx nodes2) (dis : ∀ x, x ∈ nodes1 → x ∉ nodes2)
+    (i j x y : Nat) (hx : nodes1[i]? = some x) (hy : nodes2[j]? = some y) :
+    overwrite A C nodes1 nodes2 x y = C i j ∧ overwrite A C nodes1 nodes2 y x = C i j := by
+  have mx : x ∈ nodes1 := List.mem_of_getElem? hx
+  have my : y ∈ nodes2 := List.mem_of_getElem? hy
+  constructor
+  · apply applyWrites_val
+    · intro w hw h1 h2
+      rw [mem_overwriteWrites] at hw
+      obtain ⟨i', j', n1, n2, e1, e2, hw⟩ := hw
+      rcases hw with rfl | rfl
+      · simp only at h1 h2 ⊢
+        subst h1; subst h2
+        rw [nd1 i i' _ hx e1, nd2 j j' _ hy e2]
+      · simp only at h1 h2
+        subst h1; subst h2
+        exact absurd (List.mem_of_getElem? e2) (dis _ mx)
+    · exact ⟨(x, y, C i j), (mem_overwriteWrites ..).2 ⟨i, j, x, y, hx, hy, Or.inl rfl⟩, rfl, rfl⟩
+  · apply applyWrites_val
+    · intro w hw h1 h2
+      rw [mem_overwriteWrites] at hw
+      obtain ⟨i', j', n1, n2, e1, e2, hw⟩ := hw
+      rcases hw with rfl | rfl
+      · simp only at h1 h2
+        subst h1; subst h2
+        exact absurd my (dis _ (List.mem_of_getElem? e1))
+      · simp only at h1 h2 ⊢
+        subst h1; subst h2
+        rw [nd1 i i' _ hx e1, nd2 j j' _ hy e2]
+    · exact ⟨(y, x, C i j), (mem_overwriteWrites ..).2 ⟨i, j, x, y, hx, hy, Or.inr rfl⟩, rfl, rfl⟩
+
+/-- the network after `overwriteAdjacency`: simple and undirected again -/
+theorem overwrite_simple (A C : Adj) (nodes1 nodes2 : List Nat)
+    (nd1 : NodupIdx nodes1) (nd2 : NodupIdx nodes2) (dis : ∀ x, x ∈ nodes1 → x ∉ nodes2)
+    (sym : ∀ a b, A a b = A b a) (lf : ∀ a, A a a = false) :
+    (∀ a b, overwrite A C nodes1 nodes2 a b = overwrite A C nodes1 nodes2 b a) ∧
+    (∀ a, overwrite A C nodes1 nodes2 a a = false) := by
+  constructor
+  · intro a b
+    by_cases h1 : a ∈ nodes1 ∧ b ∈ nodes2
+    · obtain ⟨i, hi⟩ := List.getElem?_of_mem h1.1
+      obtain ⟨j, hj⟩ := List.getElem?_of_mem h1.2
+      have := overwrite_block A C nodes1 nodes2 nd1 nd2 dis i j a b hi hj
+      rw [this.1, this.2]
+    · by_cases h2 : a ∈ nodes2 ∧ b ∈ nodes1
+      · obtain ⟨i, hi⟩ := List.getElem?_of_mem h2.2
+        obtain ⟨j, hj⟩ := List.getElem?_of_mem h2.1
+        have := overwrite_block A C nodes1 nodes2 nd1 nd2 dis i j b a hi hj
+        rw [this.1, this.2]
+      · rw [overwrite_untouched A C _ _ a b h1 h2,
+          overwrite_untouched A C _ _ b a (fun h => h2 ⟨h.2, h.1⟩) (fun h => h1 ⟨h.2, h.1⟩), sym]
+  · intro a
+    rw [overwrite_untouched A C _ _ a a (fun h => dis a h.1 h.2) (fun h => dis a h.2 h.1), lf]
+
+
+/-! ## `_randomlySetCrossLinks` -/
+
+/-- **exact count, every stream of in-range draws**: the kernel's nested loops set
+exactly as many *new* ones as the loop counter says, never clear one, and never
+set more than `number_cross_links`. -/
+theorem crossSet_count (m n k : Nat) (draws : List (Nat × Nat)) (C : Adj)
+    (hd : ∀ d ∈ draws, d.1 < m ∧ d.2 < n) :
+    total (crossSetRun k draws C 0).1 m n = total C m n + (crossSetRun k draws C 0).2 ∧
+    (crossSetRun k draws C 0).2 ≤ k ∧
+    (∀ a b, C a b = true → (crossSetRun k draws C 0).1 a b = true) := by
+  obtain ⟨h1, -, h3, h4⟩ := crossSetRun_spec m n k draws C 0 hd
+  exact ⟨by simpa using h1, h3 (Nat.zero_le _), h4⟩
+
+/-- **prescribed number of cross links**: started from the empty cross matrix (as
+`RandomlySetCrossLinks` does), a completed run (`done = number_cross_links`) has exactly
+`number_cross_links` ones. -/
+theorem crossSet_exact (m n k : Nat) (draws : List (Nat × Nat))
+    (hd : ∀ d ∈ draws, d.1 < m ∧ d.2 < n)
+    (hdone : (crossSetRun k draws (fun _ _ => false) 0).2 = k) :
+    total (crossSetRun k draws (fun _ _ => false) 0).1 m n = k := by
+  have h := (crossSet_count m n k draws (fun _ _ => false) hd).1
+  have hz : total (fun _ _ => false) m n = 0 := by
+    unfold total deg
+    simp only [b2i_false, rsum_zero]
+  rw [h, hz, hdone]; simp
+
+/-! ## `_randomlyRewireCrossLinks`
+
+`CrossInv m n C links` (Lemmas/RandomB.lean): `links` lists the ones of the `m × n`
+matrix `C`, each exactly once. -/
+
+/-- **one pass through the `while True` body**, whatever pair of link indices was drawn:
+`cross_links` stays the list of ones of `cross_A`; every row sum (cross degree of a
+node of group 1) and every column sum (cross degree of a node of group 2) is unchanged. -/
+theorem crossStep_inv (m n : Nat) (st st' : CrossSt) (d : Nat × Nat)
+    (h : crossStep st d = some st') (inv : CrossInv m n st.C st.links) :
+    CrossInv m n st'.C st'.links ∧ (∀ r, deg st'.C n r = deg st.C n r) ∧
+      (∀ r, colDeg st'.C m r = colDeg st.C m r) ∧ st'.links.length = st.links.length := by
+  rcases crossStep_cases st st' d h with rfl | ⟨a, b, c, e, hp, hq, e1, e2, h1, h2, rfl⟩
+  · exact ⟨inv, fun _ => rfl, fun _ => rfl, rfl⟩
+  · obtain ⟨i1, i2, i3⟩ := crossInv_swap m n st.C st.links d.1 d.2 a b c e hp hq e1 e2 h1 h2 inv
+    exact ⟨i1, i2, i3, by simp⟩
+
+/-- **whole run, every stream of draws, every number of swaps.** -/
+theorem crossRun_invariants (m n swaps : Nat) (draws : List (Nat × Nat)) (st st' : CrossSt)
+    (h : crossRun swaps draws st = some st') (inv : CrossInv m n st.C st.links) :
+    CrossInv m n st'.C st'.links ∧ (∀ r, deg st'.C n r = deg st.C n r) ∧
+      (∀ r, colDeg st'.C m r = colDeg st.C m r) ∧ st'.links.length = st.links.length ∧
+      total st'.C m n = total st.C m n := by
+  induction draws generalizing st with
+  | nil =>
+    simp only [crossRun, Option.some.injEq] at h; subst h
+    exact ⟨inv, fun _ => rfl, fun _ => rfl, rfl, rfl⟩
+  | cons d ds ih =>
+    simp only [crossRun] at h
+    split at h
+    · cases hs : crossStep st d with
+      | none => simp [hs] at h
+      | some st1 =>
+        simp only [hs, Option.bind_some] at h
+        obtain ⟨j1, j2, j3, j4⟩ := crossStep_inv m n st st1 d hs inv
+        obtain ⟨i1, i2, i3, i4, i5⟩ := ih st1 h j1
+        refine ⟨i1, fun r => by rw [i2, j2], fun r => by rw [i3, j3], by rw [i4, j4], ?_⟩
+        rw [i5]; unfold total; exact rsum_congr m fun r _ => j2 r
+    · simp only [Option.some.injEq] at h; subst h
+      exact ⟨inv, fun _ => rfl, fun _ => rfl, rfl, rfl⟩
+
+/-- **the rewired network**: with `cross_A` the cross block of the symmetric loop-free `A`,
+the returned adjacency is symmetric and loop-free, equals `A` outside the cross block
+(in particular inside each group), and its cross block is the rewired `cross_A`, whose
+row and column sums are the old cross degrees. -/
+theorem crossRewire_network (A : Adj) (nodes1 nodes2 : List Nat) (swaps : Nat)
+    (draws : List (Nat × Nat)) (st st' : CrossSt)
+    (nd1 : NodupIdx nodes1) (nd2 : NodupIdx nodes2) (dis : ∀ x, x ∈ nodes1 → x ∉ nodes2)
+    (sym : ∀ a b, A a b = A b a) (lf : ∀ a, A a a = false)
+    (h : crossRun swaps draws st = some st')
+    (inv : CrossInv nodes1.length nodes2.length st.C st.links) :
+    let A' := overwrite A st'.C nodes1 nodes2
+    (∀ a b, A' a b = A' b a) ∧ (∀ a, A' a a = false) ∧
+    (∀ a b, ¬ (a ∈ nodes1 ∧ b ∈ nodes2) → ¬ (a ∈ nodes2 ∧ b ∈ nodes1) → A' a b = A a b) ∧
+    (∀ i j x y, nodes1[i]? = some x → nodes2[j]? = some y → A' x y = st'.C i j) ∧
+    (∀ i, deg st'.C nodes2.length i = deg st.C nodes2.length i) ∧
+    (∀ j, colDeg st'.C nodes1.length j = colDeg st.C nodes1.length j) := by
+  obtain ⟨-, i2, i3, -, -⟩ := crossRun_invariants _ _ swaps draws st st' h inv
+  obtain ⟨s1, s2⟩ := overwrite_simple A st'.C nodes1 nodes2 nd1 nd2 dis sym lf
+  exact ⟨s1, s2, fun a b h1 h2 => overwrite_untouched A st'.C _ _ a b h1 h2,
+    fun i j x y hx hy => (overwrite_block A st'.C _ _ nd1 nd2 dis i j x y hx hy).1, i2, i3⟩
 
 end Pyunicorn.Random
